@@ -539,8 +539,9 @@ int cmd_find(const std::string &engine, const std::string &property, const std::
 int cmd_check(const std::string &property, const std::string &tier_s) {
 	const CheckSpec *spec = spec_for(property);
 	if (!spec) { fprintf(stderr, "no check for %s\n", property.c_str()); return 2; }
+	// the tier named on the command line wins; VERIF_TIER only decides when the command names none
 	int tier = tier_s == "thorough" ? 1 : 0;
-	if (const char *t = getenv("VERIF_TIER")) { if (!strcmp(t, "thorough")) tier = 1; else if (!strcmp(t, "quick")) tier = 0; }
+	if (tier_s != "thorough" && tier_s != "quick") if (const char *t = getenv("VERIF_TIER")) tier = !strcmp(t, "thorough") ? 1 : 0;
 	uint64_t base = 1;
 	if (const char *s = getenv("VERIF_SEED")) base = strtoull(s, nullptr, 0);
 	int W = 16;
